@@ -74,35 +74,35 @@ def SimCL (code : List Instr) (s : St) (rs : Ref.St) (env : Nat) (res : Ref.R (L
   | .cont _ _ => False
 
 def CClaimE (n : Nat) : Prop :=
-  ∀ e, Fc e = true → ∀ isFn c gs r, c.funcname = "" → (compile isFn c e).run gs = .ok r →
+  ∀ e, Fc e = true → ∀ isFn c gs r, (compile isFn c e).run gs = .ok r → c.funcname = "" →
     ∀ s rs env pre post, RelC s rs env → Seg s pre r.1.1 post → SimC r.1.1 s rs env (Ref.eval n e env rs)
 
 def CClaimB (n : Nat) : Prop :=
-  ∀ es, es ≠ [] → FcList es = true → ∀ isFn c gs r, c.funcname = "" → (compileBegin isFn c es).run gs = .ok r →
+  ∀ es, es ≠ [] → FcList es = true → ∀ isFn c gs r, (compileBegin isFn c es).run gs = .ok r → c.funcname = "" →
     ∀ s rs env pre post, RelC s rs env → Seg s pre r.1.1 post → SimC r.1.1 s rs env (Ref.evalBegin n es env rs)
 
 def CClaimC (n : Nat) : Prop :=
-  ∀ arms d, FcArms arms = true → Fc d = true → ∀ isFn c gs r gs0 rd, c.funcname = "" →
-    (compileArms isFn c arms).run gs = .ok r → (compile isFn c d).run gs0 = .ok rd →
+  ∀ arms d, FcArms arms = true → Fc d = true → ∀ isFn c gs r gs0 rd,
+    (compileArms isFn c arms).run gs = .ok r → (compile isFn c d).run gs0 = .ok rd → c.funcname = "" →
     ∀ s rs env pre post, RelC s rs env → Seg s pre (asmCond r.1 rd.1.1) post →
       SimC (asmCond r.1 rd.1.1) s rs env (Ref.evalCond n arms d env rs)
 
 def CClaimS (n : Nat) : Prop :=
-  ∀ isOr es, FcList es = true → ∀ isFn c gs r, c.funcname = "" → (compileSC isFn c es).run gs = .ok r →
+  ∀ isOr es, FcList es = true → ∀ isFn c gs r, (compileSC isFn c es).run gs = .ok r → c.funcname = "" →
     ∀ s rs env pre post, RelC s rs env → Seg s pre (asmSC isOr r.1) post →
       SimC (asmSC isOr r.1) s rs env (Ref.evalAndOr n isOr es env rs)
 
 def CClaimN (n : Nat) : Prop :=
-  ∀ es, es ≠ [] → FcList es = true → ∀ isFn c oldtail gs r, c.funcname = "" →
-    (compileNewScope isFn c oldtail es).run gs = .ok r →
+  ∀ es, es ≠ [] → FcList es = true → ∀ isFn c oldtail gs r,
+    (compileNewScope isFn c oldtail es).run gs = .ok r → c.funcname = "" →
     ∀ s rs env pre post, RelC s rs env → Seg s pre r.1.1 post → SimC r.1.1 s rs env (Ref.evalBegin n es env rs)
 
 def CClaimL (n : Nat) : Prop :=
-  ∀ bs, FcBinds bs = true → ∀ isFn c gs r, c.funcname = "" → (compileBinds isFn c true bs).run gs = .ok r →
+  ∀ bs, FcBinds bs = true → ∀ isFn c gs r, (compileBinds isFn c true bs).run gs = .ok r → c.funcname = "" →
     ∀ s rs env pre post, RelC s rs env → Seg s pre r.1.1 post → SimCU r.1.1 s rs env (Ref.evalLetSeq n bs env rs)
 
 def CClaimP (n : Nat) : Prop :=
-  ∀ bs, FcBinds bs = true → ∀ isFn c gs r, c.funcname = "" → (compileBinds isFn c false bs).run gs = .ok r →
+  ∀ bs, FcBinds bs = true → ∀ isFn c gs r, (compileBinds isFn c false bs).run gs = .ok r → c.funcname = "" →
     ∀ s rs env pre post, RelC s rs env → Seg s pre r.1.1 post →
       SimCL r.1.1 s rs env (Ref.evalList n (bs.map (·.2)) env rs)
 
@@ -303,8 +303,8 @@ theorem compileArms_total_Fc : ∀ (arms : List (Expr × Expr)), FcArms arms = t
 end
 
 /-- whatever `compile` returns for an Fc expression is non-empty code -/
-theorem compile_ne_nil_Fc {e : Expr} (he : Fc e = true) {isFn c gs r} (hfn : c.funcname = "")
-    (h : (compile isFn c e).run gs = .ok r) : r.1.1 ≠ [] := by
+theorem compile_ne_nil_Fc {e : Expr} (he : Fc e = true) {isFn c gs r}
+    (h : (compile isFn c e).run gs = .ok r) (hfn : c.funcname = "") : r.1.1 ≠ [] := by
   obtain ⟨code, t, h1, hne⟩ := compile_total_Fc e he isFn c gs hfn
   rw [h1] at h
   injection h with h
@@ -698,7 +698,7 @@ theorem evalCallExpr_nonsym_sim {n : Nat} (hE : CClaimE n) (e : Expr) (he : Fc e
     { fns := s.fns, loops := s.loops, loopstack := s.loopstack, live := s.linear } rfl
   have hgen : (runGen (compile (isFnScope s) {} e)).run s = (.ok (code, t), s) := run_runGen_ok _ s _ hc
   have hseg := seg_inHelper s code
-  have hsim := hE e he (isFnScope s) {} _ ((code, t), _) rfl hc (inHelper s code) rs env [] [.ret]
+  have hsim := hE e he (isFnScope s) {} _ ((code, t), _) hc rfl (inHelper s code) rs env [] [.ret]
     (relC_inHelper hrel code) hseg
   have hunf := fun fuel => evalCallExpr_nonsym fuel e hns s code t hgen hne
   cases hres : Ref.eval n e env rs with
@@ -968,5 +968,662 @@ theorem simC_call {m : Nat} (hA : CClaimA (m + 1)) (h : String) (hh : h ∈ foBu
   | timeout => trivial
   | brk l rs1 => rw [h1] at hprep; exact hprep.elim
   | cont l rs1 => rw [h1] at hprep; exact hprep.elim
+
+/-! ## The parallel bindings of `let` -/
+
+theorem vm_defineAllC : ∀ (ps : List (String × Val)) (s : St) (rs : Ref.St) (fr : Nat) (P Q : List Instr)
+    (D : List (Option Val)), (∀ p ∈ ps, okBinder p.1 = true) →
+    Seg s P (ps.map (fun p => Instr.popStackPutEnv p.1)) Q → s.data = ps.map (fun p => some p.2) ++ D → RelC s rs fr →
+    match defineAll rs fr ps with
+    | some rs' => ∃ s', Reach ps.length 1 s s' ∧ fnOf s' s'.curfunc = fnOf s s.curfunc
+        ∧ s'.pc = s.pc + (ps.length : Int) ∧ s'.data = D ∧ RelC s' rs' fr ∧ FramesExt rs rs' ∧ Frame s s'
+    | none => Fails ps.length s rs.trace
+  | [], s, rs, fr, P, Q, D, _, _, hd, hrel => by
+    simp only [defineAll]
+    exact ⟨s, Reach.refl s |>.mono (Nat.le_refl _) (by simp), rfl, by simp, by simpa using hd, hrel, FramesExt.refl rs,
+      Frame.refl s⟩
+  | (x, v) :: ps, s, rs, fr, P, Q, D, hok, hseg, hd, hrel => by
+    simp only [List.map_cons] at hseg hd
+    have a1 : At s P (.popStackPutEnv x) (ps.map (fun p => Instr.popStackPutEnv p.1) ++ Q) := hseg.head
+    have hp := psp_stepC a1 hd hrel (hok (x, v) List.mem_cons_self)
+    simp only [defineAll]
+    cases hdef : Ref.define rs fr x v with
+    | none =>
+      rw [hdef] at hp
+      exact Fails.mono hp (by simp)
+    | some rs1 =>
+      rw [hdef] at hp
+      obtain ⟨r1, rel1, ext1⟩ := hp
+      simp only
+      have hseg1 : Seg ((s.jmp (s.pc + 1) (ps.map (fun p => some p.2) ++ D)).bind fr x v) (P ++ [.popStackPutEnv x])
+          (ps.map (fun p => Instr.popStackPutEnv p.1)) Q :=
+        hseg.move (s' := (s.jmp (s.pc + 1) (ps.map (fun p => some p.2) ++ D)).bind fr x v) rfl (by simp)
+          (by show s.pc + 1 = _; rw [hseg.pc]; simp)
+      have ih := vm_defineAllC ps _ rs1 fr _ Q D (fun p hp => hok p (List.mem_cons_of_mem _ hp)) hseg1 rfl rel1
+      cases hda : defineAll rs1 fr ps with
+      | none =>
+        rw [hda] at ih
+        rw [ref_define_trace hdef] at ih
+        exact (Fails.of_reach r1 ih).mono (by simp; omega)
+      | some rs' =>
+        rw [hda] at ih
+        obtain ⟨s', r2, hfn, hpc, hdata, rel', ext', fr'⟩ := ih
+        refine ⟨s', (r1.trans r2).mono (by simp; omega) (by simp), hfn, ?_, hdata, rel', ext1.trans ext',
+          ((Frame.jmp _ _ _).trans (Frame.bind _ _ _ _)).trans fr'⟩
+        rw [hpc]
+        show s.pc + 1 + (ps.length : Int) = s.pc + (((x, v) :: ps).length : Int)
+        simp only [List.length_cons]; push_cast; omega
+
+/-! ## The inductive steps for the list forms -/
+
+theorem cclaimN_succ {n : Nat} (hE : CClaimE n) (hN : CClaimN n) : CClaimN (n + 1) := by
+  intro es hne hes isFn c oldtail gs r hc hfn s rs env pre post hrel hseg
+  match es, hne with
+  | [e], _ =>
+    rw [FcList] at hes
+    simp only [Bool.and_eq_true] at hes
+    rw [compileNewScope] at hc
+    rw [Ref.evalBegin]
+    exact hE e hes.1 isFn _ gs r hc hfn s rs env pre post hrel hseg
+  | e :: e' :: es', _ =>
+    rw [FcList] at hes
+    simp only [Bool.and_eq_true] at hes
+    rw [compileNewScope] at hc
+    · simp only [g_bind_ok, g_pure_ok] at hc
+      obtain ⟨ra, gs1, ha, rb, gs2, hb, rfl⟩ := hc
+      rw [Ref.evalBegin]
+      · have ih := hE e hes.1 isFn _ gs (ra, gs1) ha hfn s rs env pre ([.pop] ++ rb.1 ++ post) hrel
+          (hseg.refocus (by simp))
+        cases h1 : Ref.eval n e env rs with
+        | ok v1 rs1 =>
+          rw [h1] at ih
+          obtain ⟨s1, r1, l1, rel1, ext1, fr1⟩ := ih
+          obtain ⟨r2, m2⟩ := glue_pop hseg l1
+          have ih2 := hN (e' :: es') (by simp) hes.2 isFn c oldtail gs1 (rb, gs2) hb hfn _ rs1 env _ post (rel1.jmp _ _)
+            (hseg.moved m2 (c₁ := ra.1 ++ [.pop]) (c₂ := rb.1) (post' := post) rfl (by simp))
+          exact SimC.seq (r1.trans r2.toE) m2 ext1 (fr1.trans (Frame.jmp _ _ _)) ih2 (by lenarith) (by lenarith)
+        | err rs1 => rw [h1] at ih; exact SimC.prefix ih (fun _ _ hh => by cases hh) (by lenarith)
+        | timeout => trivial
+        | brk l rs1 => rw [h1] at ih; exact ih.elim
+        | cont l rs1 => rw [h1] at ih; exact ih.elim
+      · intro hh; cases hh
+    · intro hh; cases hh
+
+theorem cclaimL_succ {n : Nat} (hE : CClaimE n) (hL : CClaimL n) : CClaimL (n + 1) := by
+  intro bs hbs isFn c gs r hc hfn s rs env pre post hrel hseg
+  match bs with
+  | [] =>
+    rw [compileBinds] at hc; simp only [g_pure_ok] at hc; subst hc
+    rw [Ref.evalLetSeq]
+    · exact ⟨s, ReachE.refl s, Moved.refl s, hrel, FramesExt.refl rs, Frame.refl s⟩
+    · omega
+  | (x, e) :: bs' =>
+    rw [FcBinds] at hbs
+    simp only [Bool.and_eq_true] at hbs
+    rw [compileBinds] at hc
+    simp only [g_bind_ok, g_pure_ok] at hc
+    obtain ⟨ra, gs1, ha, rb, gs2, hb, rfl⟩ := hc
+    have hcode : (ra.1 ++ (if True then [Instr.popStackPutEnv x] else []) ++ rb.1)
+        = ra.1 ++ [Instr.popStackPutEnv x] ++ rb.1 := by simp
+    simp only [hcode] at hseg ⊢
+    rw [Ref.evalLetSeq]
+    have ih := hE e hbs.1.2 isFn _ gs (ra, gs1) ha hfn s rs env pre ([.popStackPutEnv x] ++ rb.1 ++ post) hrel
+      (hseg.refocus (by simp))
+    cases h1 : Ref.eval n e env rs with
+    | ok v1 rs1 =>
+      rw [h1] at ih
+      obtain ⟨s1, r1, l1, rel1, ext1, fr1⟩ := ih
+      simp only
+      have a2 : At s1 (pre ++ ra.1) (.popStackPutEnv x) (rb.1 ++ post) :=
+        hseg.landed l1 (c₁ := ra.1) (by simp) rfl
+      have hp := psp_stepC a2 l1.data rel1 hbs.1.1
+      cases hdef : Ref.define rs1 env x v1 with
+      | none =>
+        rw [hdef] at hp
+        simp only
+        exact (FailsE.of_reach r1 hp.toE).mono (by lenarith)
+      | some rs2 =>
+        rw [hdef] at hp
+        obtain ⟨r2, rel2, ext2⟩ := hp
+        simp only
+        have m2 : Moved (ra.1.length + 1) s ((s1.jmp (s1.pc + 1) s.data).bind env x v1) :=
+          ⟨l1.fn, by show s1.pc + 1 = _; rw [l1.pc]; push_cast; omega, rfl⟩
+        have ih2 := hL bs' hbs.2 isFn _ gs1 (rb, gs2) hb hfn _ rs2 env _ post rel2
+          (hseg.moved m2 (c₁ := ra.1 ++ [.popStackPutEnv x]) (c₂ := rb.1) (post' := post) rfl (by simp))
+        cases h2 : Ref.evalLetSeq n bs' env rs2 with
+        | ok u rs3 =>
+          rw [h2] at ih2
+          obtain ⟨s3, r3, m3, rel3, ext3, fr3⟩ := ih2
+          exact ⟨s3, ((r1.trans r2.toE).trans r3).mono (by lenarith),
+            ⟨m3.fn.trans m2.fn, by rw [m3.pc, m2.pc]; simp only [List.length_append, List.length_cons, List.length_nil]; push_cast; omega,
+              m3.data.trans m2.data⟩, rel3, (ext1.trans ext2).trans ext3,
+            (fr1.trans ((Frame.jmp _ _ _).trans (Frame.bind _ _ _ _))).trans fr3⟩
+        | err rs3 => rw [h2] at ih2; exact (FailsE.of_reach (r1.trans r2.toE) ih2).mono (by lenarith)
+        | timeout => trivial
+        | brk l rs3 => rw [h2] at ih2; exact ih2.elim
+        | cont l rs3 => rw [h2] at ih2; exact ih2.elim
+    | err rs1 => rw [h1] at ih; exact FailsE.mono ih (by lenarith)
+    | timeout => trivial
+    | brk l rs1 => rw [h1] at ih; exact ih.elim
+    | cont l rs1 => rw [h1] at ih; exact ih.elim
+
+theorem cclaimP_succ {n : Nat} (hE : CClaimE n) (hP : CClaimP n) : CClaimP (n + 1) := by
+  intro bs hbs isFn c gs r hc hfn s rs env pre post hrel hseg
+  match bs with
+  | [] =>
+    rw [compileBinds] at hc; simp only [g_pure_ok] at hc; subst hc
+    simp only [List.map_nil]
+    rw [Ref.evalList]
+    · exact ⟨s, ReachE.refl s, rfl, by simp, by simp, hrel, FramesExt.refl rs, Frame.refl s⟩
+    · omega
+  | (x, e) :: bs' =>
+    rw [FcBinds] at hbs
+    simp only [Bool.and_eq_true] at hbs
+    rw [compileBinds] at hc
+    simp only [g_bind_ok, g_pure_ok] at hc
+    obtain ⟨ra, gs1, ha, rb, gs2, hb, rfl⟩ := hc
+    have hcode : (ra.1 ++ (if False then [Instr.popStackPutEnv x] else []) ++ rb.1) = ra.1 ++ rb.1 := by simp
+    simp only [Bool.false_eq_true, hcode] at hseg ⊢
+    simp only [List.map_cons]
+    rw [Ref.evalList]
+    have ih := hE e hbs.1.2 isFn _ gs (ra, gs1) ha hfn s rs env pre (rb.1 ++ post) hrel (hseg.refocus (by simp))
+    cases h1 : Ref.eval n e env rs with
+    | ok v1 rs1 =>
+      rw [h1] at ih
+      obtain ⟨s1, r1, l1, rel1, ext1, fr1⟩ := ih
+      simp only
+      have ih2 := hP bs' hbs.2 isFn _ gs1 (rb, gs2) hb hfn s1 rs1 env (pre ++ ra.1) post rel1
+        (hseg.move l1.fn (by simp) (by rw [l1.pc, hseg.pc]; simp))
+      cases h2 : Ref.evalList n (bs'.map (·.2)) env rs1 with
+      | ok vs rs2 =>
+        rw [h2] at ih2
+        obtain ⟨s2, r2, hfn2, hpc2, hdata2, rel2, ext2, fr2⟩ := ih2
+        refine ⟨s2, (r1.trans r2).mono (by lenarith), hfn2.trans l1.fn, ?_, ?_, rel2, ext1.trans ext2, fr1.trans fr2⟩
+        · rw [hpc2, l1.pc]; simp only [List.length_append]; push_cast; omega
+        · rw [hdata2, l1.data]; simp
+      | err rs2 => rw [h2] at ih2; exact (FailsE.of_reach r1 ih2).mono (by lenarith)
+      | timeout => trivial
+      | brk l rs2 => rw [h2] at ih2; exact ih2.elim
+      | cont l rs2 => rw [h2] at ih2; exact ih2.elim
+    | err rs1 => rw [h1] at ih; exact FailsE.mono ih (by lenarith)
+    | timeout => trivial
+    | brk l rs1 => rw [h1] at ih; exact ih.elim
+    | cont l rs1 => rw [h1] at ih; exact ih.elim
+
+theorem cclaimB_succ {n : Nat} (hE : CClaimE n) (hB : CClaimB n) : CClaimB (n + 1) := by
+  intro es hne hes isFn c gs r hc hfn s rs env pre post hrel hseg
+  match es, hne with
+  | [e], _ =>
+    rw [FcList] at hes
+    simp only [Bool.and_eq_true] at hes
+    rw [compileBegin] at hc
+    rw [Ref.evalBegin]
+    exact hE e hes.1 isFn c gs r hc hfn s rs env pre post hrel hseg
+  | e :: e' :: es', _ =>
+    rw [FcList] at hes
+    simp only [Bool.and_eq_true] at hes
+    rw [compileBegin] at hc
+    · simp only [g_bind_ok, g_pure_ok] at hc
+      obtain ⟨ra, gs1, ha, rb, gs2, hb, rfl⟩ := hc
+      have hane : ra.1.isEmpty = false := by
+        simpa [List.isEmpty_eq_false_iff] using compile_ne_nil_Fc hes.1 ha hfn
+      simp only [hane, Bool.false_eq_true, if_false] at hseg ⊢
+      rw [Ref.evalBegin]
+      · have ih := hE e hes.1 isFn _ gs (ra, gs1) ha hfn s rs env pre ([.pop] ++ rb.1 ++ post) hrel
+          (hseg.refocus (by simp))
+        cases h1 : Ref.eval n e env rs with
+        | ok v1 rs1 =>
+          rw [h1] at ih
+          obtain ⟨s1, r1, l1, rel1, ext1, fr1⟩ := ih
+          obtain ⟨r2, m2⟩ := glue_pop hseg l1
+          have ih2 := hB (e' :: es') (by simp) hes.2 isFn c gs1 (rb, gs2) hb hfn _ rs1 env _ post (rel1.jmp _ _)
+            (hseg.moved m2 (c₁ := ra.1 ++ [.pop]) (c₂ := rb.1) (post' := post) rfl (by simp))
+          exact SimC.seq (r1.trans r2.toE) m2 ext1 (fr1.trans (Frame.jmp _ _ _)) ih2 (by lenarith) (by lenarith)
+        | err rs1 => rw [h1] at ih; exact SimC.prefix ih (fun _ _ hh => by cases hh) (by lenarith)
+        | timeout => trivial
+        | brk l rs1 => rw [h1] at ih; exact ih.elim
+        | cont l rs1 => rw [h1] at ih; exact ih.elim
+      · intro hh; cases hh
+    · intro hh; cases hh
+
+theorem cclaimC_succ {n : Nat} (hE : CClaimE n) (hC : CClaimC n) : CClaimC (n + 1) := by
+  intro arms d harms hd isFn c gs r gs0 rd hc hcd hfn s rs env pre post hrel hseg
+  match arms with
+  | [] =>
+    rw [compileArms] at hc; simp only [g_pure_ok] at hc; subst hc
+    rw [Ref.evalCond]
+    simp only [asmCond] at hseg ⊢
+    exact hE d hd isFn c gs0 rd hcd hfn s rs env pre post hrel hseg
+  | (p, b) :: arms' =>
+    rw [FcArms] at harms
+    simp only [Bool.and_eq_true] at harms
+    rw [compileArms] at hc
+    simp only [g_bind_ok, g_pure_ok] at hc
+    obtain ⟨rest, gs1, hrest, rp, gs2, hp, rb, gs3, hb, rfl⟩ := hc
+    rw [Ref.evalCond]
+    simp only [asmCond] at hseg ⊢
+    have ih := hE p harms.1.1 isFn _ gs1 (rp, gs2) hp hfn s rs env pre _ hrel (hseg.refocus (c' := rp.1)
+      (post' := [.branch false (rb.1.length + 2)] ++ rb.1 ++ [.jump ((asmCond rest rd.1.1).length + 1)]
+        ++ asmCond rest rd.1.1 ++ post) (by simp))
+    cases h1 : Ref.eval n p env rs with
+    | ok v1 rs1 =>
+      rw [h1] at ih
+      obtain ⟨s1, r1, l1, rel1, ext1, fr1⟩ := ih
+      simp only
+      by_cases ht : truthy v1 = true
+      · rw [if_pos ht]
+        obtain ⟨r2, m2⟩ := glue_brn_fall hseg l1 ht
+        have ih2 := hE b harms.1.2 isFn c gs2 (rb, gs3) hb hfn _ rs1 env _ _ (rel1.jmp _ _)
+          (hseg.moved m2 (c₁ := rp.1 ++ [.branch false (rb.1.length + 2)]) (c₂ := rb.1)
+            (post' := [.jump ((asmCond rest rd.1.1).length + 1)] ++ asmCond rest rd.1.1 ++ post)
+            (by simp) (by simp))
+        exact SimC.cond_exit hseg (r1.trans r2.toE) m2 ext1 (fr1.trans (Frame.jmp _ _ _)) ih2 (Nat.le_refl _)
+      · rw [if_neg ht]
+        obtain ⟨r2, m2⟩ := glue_brn_taken hseg l1 (by simpa using ht)
+        have ih2 := hC arms' d harms.2 hd isFn c gs (rest, gs1) gs0 rd hrest hcd hfn _ rs1 env _ post (rel1.jmp _ _)
+          (hseg.moved m2 (c₁ := rp.1 ++ [.branch false (rb.1.length + 2)] ++ rb.1
+              ++ [.jump ((asmCond rest rd.1.1).length + 1)]) (c₂ := asmCond rest rd.1.1) (post' := post)
+            (by simp) (by lenarith))
+        exact SimC.seq (r1.trans r2.toE) m2 ext1 (fr1.trans (Frame.jmp _ _ _)) ih2 (by lenarith) (by lenarith)
+    | err rs1 => rw [h1] at ih; exact SimC.prefix ih (fun _ _ hh => by cases hh) (by lenarith)
+    | timeout => trivial
+    | brk l rs1 => rw [h1] at ih; exact ih.elim
+    | cont l rs1 => rw [h1] at ih; exact ih.elim
+
+theorem cclaimS_succ {n : Nat} (hE : CClaimE n) (hS : CClaimS n) : CClaimS (n + 1) := by
+  intro isOr es hes isFn c gs r hc hfn s rs env pre post hrel hseg
+  match es with
+  | [] =>
+    rw [compileSC] at hc; simp only [g_pure_ok] at hc; subst hc
+    rw [Ref.evalAndOr]
+    · simp only [asmSC] at hseg ⊢
+      exact simC_push _ hrel hseg
+    · omega
+  | [e] =>
+    rw [FcList] at hes
+    simp only [Bool.and_eq_true] at hes
+    rw [compileSC] at hc
+    simp only [g_bind_ok, g_pure_ok] at hc
+    obtain ⟨ra, gs1, ha, rfl⟩ := hc
+    rw [Ref.evalAndOr]
+    simp only [asmSC] at hseg ⊢
+    exact hE e hes.1 isFn c gs (ra, gs1) ha hfn s rs env pre post hrel hseg
+  | e :: e' :: es' =>
+    rw [FcList] at hes
+    simp only [Bool.and_eq_true] at hes
+    rw [compileSC] at hc
+    · simp only [g_bind_ok, g_pure_ok] at hc
+      obtain ⟨rest, gs1, hrest, ra, gs2, ha, rfl⟩ := hc
+      have hlen := compileSC_length hrest
+      obtain ⟨r0, rs0, hr0⟩ : ∃ r0 rs0, rest = r0 :: rs0 := by
+        cases rest with
+        | nil => simp at hlen
+        | cons r0 rs0 => exact ⟨r0, rs0, rfl⟩
+      have hasm : asmSC isOr (ra.1 :: rest)
+          = ra.1 ++ [.dup, .branch isOr ((asmSC isOr rest).length + 2), .pop] ++ asmSC isOr rest := by
+        rw [hr0]; simp only [asmSC]
+      simp only [hasm] at hseg ⊢
+      rw [Ref.evalAndOr]
+      · have ih := hE e hes.1 isFn _ gs1 (ra, gs2) ha hfn s rs env pre _ hrel (hseg.refocus (c' := ra.1)
+          (post' := [.dup, .branch isOr ((asmSC isOr rest).length + 2), .pop] ++ asmSC isOr rest ++ post) (by simp))
+        cases h1 : Ref.eval n e env rs with
+        | ok v1 rs1 =>
+          rw [h1] at ih
+          obtain ⟨s1, r1, l1, rel1, ext1, fr1⟩ := ih
+          simp only
+          by_cases ht : (truthy v1 == isOr) = true
+          · rw [if_pos ht]
+            obtain ⟨r2, l2⟩ := glue_sc_stop hseg l1 (by simpa using ht)
+            exact ⟨_, (r1.trans r2.toE).mono (by lenarith), l2, rel1.jmp _ _, ext1, fr1.trans (Frame.jmp _ _ _)⟩
+          · rw [if_neg ht]
+            obtain ⟨r2, m2⟩ := glue_sc_go hseg l1 (by simpa using ht)
+            have ih2 := hS isOr (e' :: es') hes.2 isFn c gs (rest, gs1) hrest hfn _ rs1 env _ post (rel1.jmp _ _)
+              (hseg.moved m2 (c₁ := ra.1 ++ [.dup, .branch isOr ((asmSC isOr rest).length + 2), .pop])
+                (c₂ := asmSC isOr rest) (post' := post) (by simp) (by simp))
+            exact SimC.seq (r1.trans r2.toE) m2 ext1 (fr1.trans (Frame.jmp _ _ _)) ih2 (by lenarith) (by lenarith)
+        | err rs1 => rw [h1] at ih; exact SimC.prefix ih (fun _ _ hh => by cases hh) (by lenarith)
+        | timeout => trivial
+        | brk l rs1 => rw [h1] at ih; exact ih.elim
+        | cont l rs1 => rw [h1] at ih; exact ih.elim
+      · intro hh; cases hh
+    · intro hh; cases hh
+
+
+/-! ## `let` with distinct names, and the expression step -/
+
+theorem fcBinds_names : ∀ (bs : List (String × Expr)), FcBinds bs = true → ∀ x ∈ bs.map (·.1), okBinder x = true
+  | [], _, x, hx => by cases hx
+  | (y, e) :: bs, h, x, hx => by
+    rw [FcBinds] at h
+    simp only [Bool.and_eq_true] at h
+    rcases List.mem_cons.mp hx with rfl | hx
+    · exact h.1.1
+    · exact fcBinds_names bs h.2 x hx
+
+theorem Globals.withVars_congr {rs : Ref.St} {fr : Nat} {fr0 : Ref.Frame} {va vb : List (String × Val)}
+    (h : Globals (withVars rs fr fr0 vb)) (hl : ∀ y, va.lookup y = vb.lookup y) : Globals (withVars rs fr fr0 va) := by
+  have key : ∀ i y, ((withVars rs fr fr0 va).frames.getD i {}).vars.lookup y
+      = ((withVars rs fr fr0 vb).frames.getD i {}).vars.lookup y := by
+    intro i y
+    simp only [withVars, List.getD_eq_getElem?_getD, List.getElem?_set]
+    by_cases hi : fr = i
+    · subst hi
+      by_cases hlt : fr < rs.frames.length
+      · simp only [hlt, if_true, Option.getD_some, hl y]
+      · simp only [hlt, if_false, if_true]
+    · simp only [hi, if_false]
+  intro name hn
+  exact ⟨by rw [key]; exact (h name hn).1, fun i hi => by rw [key]; exact (h name hn).2 i hi⟩
+
+theorem RelC.withVars_congr {s : St} {rs : Ref.St} {fr : Nat} {fr0 : Ref.Frame} {va vb : List (String × Val)} {env : Nat}
+    (h : RelC s (withVars rs fr fr0 vb) env) (hfr : rs.frames[fr]? = some fr0)
+    (hl : ∀ y, va.lookup y = vb.lookup y) : RelC s (withVars rs fr fr0 va) env :=
+  ⟨h.toRelCore.withVars_congr hfr hl, h.fnchain, h.globals.withVars_congr hl⟩
+
+/-- `let` with pairwise distinct names: the initialisers in the fresh scope, the bindings
+(popped in reverse order), the body, `removeScope`. -/
+theorem cclaimE_letpar {n : Nat} (hB : CClaimB n) (hP : CClaimP n) {bs : List (String × Expr)} {body : List Expr}
+    (isFn : Nat → Bool) (c : Ctx) (gs : GS) (r : (List Instr × Bool) × GS)
+    (hc : (compile isFn c (.let_ false bs body)).run gs = .ok r)
+    (s : St) (rs : Ref.St) (env : Nat) (pre post : List Instr) (hrel : RelC s rs env) (hseg : Seg s pre r.1.1 post) (hfn : c.funcname = "")
+    (hnd : (bs.map (·.1)).Nodup) (hbody : body ≠ []) (hbs : FcBinds bs = true) (hbl : FcList body = true) :
+    SimC r.1.1 s rs env (Ref.eval (n + 1) (.let_ false bs body) env rs) := by
+  rw [compile] at hc
+  simp only [g_bind_ok, g_pure_ok] at hc
+  obtain ⟨ra, gs1, ha, rb, gs2, hb, rfl⟩ := hc
+  have hcode : ([Instr.addScope] ++ ra.1 ++ (if False then [] else (List.map (fun p => Instr.popStackPutEnv p.fst) bs).reverse)
+      ++ rb.1 ++ [Instr.removeScope])
+      = [Instr.addScope] ++ (ra.1 ++ (bs.map (fun p => Instr.popStackPutEnv p.1)).reverse ++ rb.1) ++ [Instr.removeScope] := by
+    simp
+  simp only [Bool.false_eq_true, hcode] at hseg ⊢
+  rw [Ref.eval]
+  show SimC _ s rs env (if false = true then _ else
+      (match Ref.evalList n (bs.map (·.2)) rs.frames.length (Ref.newFrame rs env).2 with
+       | .ok vs s => (match Ref.bindAll s rs.frames.length (bs.map (·.1)) vs with
+          | some s => Ref.evalBegin n body rs.frames.length s
+          | none => .err s)
+       | .err s => .err s | .brk l s => .brk l s | .cont l s => .cont l s | .timeout => .timeout))
+  rw [if_neg (by decide)]
+  refine SimC.scoped hseg hrel ?_
+  have hseg1 := hseg.inner
+  have hL := hP bs hbs isFn _ gs (ra, gs1) ha hfn _ _ _ _ _ hrel.pushScope
+    (hseg1.refocus (c' := ra.1)
+      (post' := (bs.map (fun p => Instr.popStackPutEnv p.1)).reverse ++ rb.1 ++ ([.removeScope] ++ post)) (by simp))
+  cases h1 : Ref.evalList n (bs.map (·.2)) rs.frames.length (Ref.newFrame rs env).2 with
+  | ok vs rs2 =>
+    rw [h1] at hL
+    obtain ⟨s2, r2, hfn2, hpc2, hdata2, rel2, ext2, fr2⟩ := hL
+    simp only
+    have hlen : vs.length = bs.length := by
+      have := ref_evalList_length _ _ _ _ _ _ h1
+      simpa using this
+    -- the pairs in the order the VM binds them
+    have hmapI : ((bs.map (·.1)).zip vs).reverse.map (fun p => Instr.popStackPutEnv p.1)
+        = (bs.map (fun p => Instr.popStackPutEnv p.1)).reverse := by
+      rw [List.map_reverse]
+      congr 1
+      have : ((bs.map (·.1)).zip vs).map (fun p => Instr.popStackPutEnv p.1)
+          = (((bs.map (·.1)).zip vs).map (·.1)).map Instr.popStackPutEnv := by rw [List.map_map]; rfl
+      rw [this, List.map_fst_zip (by simp [hlen]), List.map_map]; rfl
+    have hmapD : ((bs.map (·.1)).zip vs).reverse.map (fun p => some p.2) = vs.reverse.map some := by
+      have : ((bs.map (·.1)).zip vs).map (fun p => some p.2)
+          = (((bs.map (·.1)).zip vs).map (·.2)).map some := by rw [List.map_map]; rfl
+      rw [List.map_reverse, List.map_reverse, this, List.map_snd_zip (by simp [hlen])]
+    have hndz : (((bs.map (·.1)).zip vs).map (·.1)).Nodup := by
+      rw [List.map_fst_zip (by simp [hlen])]; exact hnd
+    have hsegB : Seg s2 (pre ++ [Instr.addScope] ++ ra.1)
+        (((bs.map (·.1)).zip vs).reverse.map (fun p => Instr.popStackPutEnv p.1)) (rb.1 ++ ([.removeScope] ++ post)) := by
+      rw [hmapI]
+      exact hseg1.move hfn2 (by simp) (by rw [hpc2, hseg1.pc]; simp; omega)
+    have hokp : ∀ p ∈ ((bs.map (·.1)).zip vs).reverse, okBinder p.1 = true := by
+      intro p hp
+      have hmem : p.1 ∈ bs.map (·.1) := (List.of_mem_zip (show (p.1, p.2) ∈ _ from List.mem_reverse.mp hp)).1
+      exact fcBinds_names bs hbs p.1 hmem
+    have hvm := vm_defineAllC ((bs.map (·.1)).zip vs).reverse s2 rs2 rs.frames.length _ _ s.pushScope.data hokp hsegB
+      (by rw [hmapD]; exact hdata2) rel2
+    have hlt2 := rel2.chain.lt
+    obtain ⟨fr0, hfr0⟩ : ∃ fr0, rs2.frames[rs.frames.length]? = some fr0 := ⟨rs2.frames[rs.frames.length], by simp [hlt2]⟩
+    have hrev := defineAll_reverse rs2 rs.frames.length fr0 hfr0 ((bs.map (·.1)).zip vs) hndz
+    rw [bindAll_eq_defineAll]
+    cases hfwd : defineAll rs2 rs.frames.length ((bs.map (·.1)).zip vs) with
+    | some a =>
+      cases hbwd : defineAll rs2 rs.frames.length ((bs.map (·.1)).zip vs).reverse with
+      | some b =>
+        rw [hfwd, hbwd] at hrev
+        rw [hbwd] at hvm
+        obtain ⟨va, vb, hva, hvb, hlook⟩ := hrev
+        obtain ⟨s3, r3, hfn3, hpc3, hdata3, rel3, ext3, fr3⟩ := hvm
+        simp only
+        rw [hvb] at rel3 ext3
+        have rel3a : RelC s3 a rs.frames.length := by rw [hva]; exact rel3.withVars_congr hfr0 hlook
+        have ext3a : FramesExt rs2 a := by rw [hva]; exact ext3.withVars_congr
+        have m3 : Moved (ra.1.length + (bs.map (fun p => Instr.popStackPutEnv p.1)).reverse.length) s.pushScope s3 :=
+          ⟨hfn3.trans hfn2, by
+            rw [hpc3, hpc2]; simp only [List.length_reverse, List.length_map, List.length_zip, hlen, Nat.min_self]
+            push_cast; omega, hdata3⟩
+        have ihb := hB body hbody hbl isFn _ gs1 (rb, gs2) hb hfn s3 a _ _ _ rel3a
+          (hseg1.moved m3 (c₁ := ra.1 ++ (bs.map (fun p => Instr.popStackPutEnv p.1)).reverse) (c₂ := rb.1)
+            (post' := [.removeScope] ++ post) (by simp) (by simp))
+        refine SimC.seq (r2.trans r3.toE) m3 (ext2.trans ext3a) (fr2.trans fr3) ihb ?_ ?_
+        · simp only [List.length_append, List.length_reverse, List.length_map, List.length_zip, hlen, Nat.min_self]
+          omega
+        · simp only [List.length_append, List.length_reverse, List.length_map]
+      | none =>
+        rw [hfwd, hbwd] at hrev
+        exact hrev.elim
+    | none =>
+      cases hbwd : defineAll rs2 rs.frames.length ((bs.map (·.1)).zip vs).reverse with
+      | some b =>
+        rw [hfwd, hbwd] at hrev
+        exact hrev.elim
+      | none =>
+        rw [hbwd] at hvm
+        simp only
+        refine (FailsE.of_reach r2 hvm.toE).mono ?_
+        simp only [List.length_append, List.length_reverse, List.length_map, List.length_zip, hlen, Nat.min_self]
+        omega
+  | err rs2 => rw [h1] at hL; exact FailsE.mono hL (by lenarith)
+  | timeout => trivial
+  | brk l rs2 => rw [h1] at hL; exact hL.elim
+  | cont l rs2 => rw [h1] at hL; exact hL.elim
+
+
+theorem cclaimE_succ {n : Nat} (hE : CClaimE n) (hB : CClaimB n) (hC : CClaimC n) (hS : CClaimS n)
+    (hN : CClaimN n) (hL : CClaimL n) (hP : CClaimP n) (hA : CClaimA n) : CClaimE (n + 1) := by
+  intro e he isFn c gs r hc hfn s rs env pre post hrel hseg
+  cases e with
+  | int x =>
+    rw [compile] at hc; simp only [g_pure_ok] at hc; subst hc
+    rw [Ref.eval]; exact simC_push _ hrel hseg
+  | bool x =>
+    rw [compile] at hc; simp only [g_pure_ok] at hc; subst hc
+    rw [Ref.eval]; exact simC_push _ hrel hseg
+  | str x =>
+    rw [compile] at hc; simp only [g_pure_ok] at hc; subst hc
+    rw [Ref.eval]; exact simC_push _ hrel hseg
+  | nilLit =>
+    rw [compile] at hc; simp only [g_pure_ok] at hc; subst hc
+    rw [Ref.eval]; exact simC_push _ hrel hseg
+  | sym x =>
+    rw [compile] at hc; simp only [g_pure_ok] at hc; subst hc
+    exact simC_sym x n hrel hseg
+  | begin_ es =>
+    rw [Fc] at he
+    simp only [Bool.and_eq_true, Bool.not_eq_true', List.isEmpty_eq_false_iff] at he
+    rw [compile] at hc
+    rw [Ref.eval]
+    exact hB es he.1 he.2 isFn c gs r hc hfn s rs env pre post hrel hseg
+  | def_ x e1 =>
+    rw [Fc] at he
+    simp only [Bool.and_eq_true] at he
+    rw [compile] at hc
+    simp only [g_bind_ok, g_pure_ok] at hc
+    obtain ⟨ra, gs1, ha, rfl⟩ := hc
+    rw [Ref.eval]
+    have ih := hE e1 he.2 isFn _ gs (ra, gs1) ha hfn s rs env pre ([.dup, .popStackPutEnv x] ++ post) hrel
+      (hseg.refocus (by simp))
+    cases h1 : Ref.eval n e1 env rs with
+    | ok v rs1 =>
+      rw [h1] at ih
+      obtain ⟨s1, r1, l1, rel1, ext1, fr1⟩ := ih
+      exact simC_def_tail hseg he.1 r1 l1 rel1 ext1 fr1
+    | err rs1 => rw [h1] at ih; exact SimC.prefix ih (fun _ _ hh => by cases hh) (by lenarith)
+    | timeout => trivial
+    | brk l rs1 => rw [h1] at ih; exact ih.elim
+    | cont l rs1 => rw [h1] at ih; exact ih.elim
+  | set_ x e1 =>
+    rw [Fc] at he
+    simp only [Bool.and_eq_true] at he
+    rw [compile] at hc
+    simp only [g_bind_ok, g_pure_ok] at hc
+    obtain ⟨ra, gs1, ha, rfl⟩ := hc
+    rw [Ref.eval]
+    have ih := hE e1 he.2 isFn _ gs (ra, gs1) ha hfn s rs env pre ([.dup, .update x] ++ post) hrel
+      (hseg.refocus (by simp))
+    cases h1 : Ref.eval n e1 env rs with
+    | ok v rs1 =>
+      rw [h1] at ih
+      obtain ⟨s1, r1, l1, rel1, ext1, fr1⟩ := ih
+      exact simC_set_tail hseg he.1 r1 l1 rel1 ext1 fr1
+    | err rs1 => rw [h1] at ih; exact SimC.prefix ih (fun _ _ hh => by cases hh) (by lenarith)
+    | timeout => trivial
+    | brk l rs1 => rw [h1] at ih; exact ih.elim
+    | cont l rs1 => rw [h1] at ih; exact ih.elim
+  | cond arms d =>
+    rw [Fc] at he
+    simp only [Bool.and_eq_true] at he
+    rw [compile] at hc
+    simp only [g_bind_ok, g_pure_ok] at hc
+    obtain ⟨rd, gs1, hd, as, gs2, has, rfl⟩ := hc
+    rw [Ref.eval]
+    exact hC arms d he.1 he.2 isFn c gs1 (as, gs2) gs (rd, gs1) has hd hfn s rs env pre post hrel hseg
+  | and_ es =>
+    rw [Fc] at he
+    rw [compile] at hc
+    simp only [g_bind_ok, g_pure_ok] at hc
+    obtain ⟨cs, gs1, hcs, rfl⟩ := hc
+    rw [Ref.eval]
+    exact hS false es he isFn c gs (cs, gs1) hcs hfn s rs env pre post hrel hseg
+  | or_ es =>
+    rw [Fc] at he
+    rw [compile] at hc
+    simp only [g_bind_ok, g_pure_ok] at hc
+    obtain ⟨cs, gs1, hcs, rfl⟩ := hc
+    rw [Ref.eval]
+    exact hS true es he isFn c gs (cs, gs1) hcs hfn s rs env pre post hrel hseg
+  | newScope es =>
+    rw [Fc] at he
+    simp only [Bool.and_eq_true, Bool.not_eq_true', List.isEmpty_eq_false_iff] at he
+    cases es with
+    | nil => exact absurd rfl he.1
+    | cons e0 es0 =>
+      rw [compile] at hc
+      · simp only [g_bind_ok, g_pure_ok] at hc
+        obtain ⟨ra, gs1, ha, rfl⟩ := hc
+        rw [Ref.eval]
+        show SimC _ s rs env (Ref.evalBegin n (e0 :: es0) rs.frames.length (Ref.newFrame rs env).2)
+        exact SimC.scoped hseg hrel (hN (e0 :: es0) he.1 he.2 isFn _ _ gs (ra, gs1) ha hfn _ _ _ _ _ hrel.pushScope hseg.inner)
+      · intro hh; cases hh
+  | let_ seq bs body =>
+    rw [Fc] at he
+    simp only [Bool.and_eq_true, Bool.not_eq_true', List.isEmpty_eq_false_iff] at he
+    obtain ⟨⟨⟨hseq, hbody⟩, hbs⟩, hbl⟩ := he
+    cases seq
+    · exact cclaimE_letpar hB hP isFn c gs r hc s rs env pre post hrel hseg hfn
+        (by simpa using hseq) hbody hbs hbl
+    rw [compile] at hc
+    simp only [g_bind_ok, g_pure_ok] at hc
+    obtain ⟨ra, gs1, ha, rb, gs2, hb, rfl⟩ := hc
+    have hcode : ([Instr.addScope] ++ ra.1 ++ (if True then [] else (List.map (fun p => Instr.popStackPutEnv p.fst) bs).reverse)
+        ++ rb.1 ++ [Instr.removeScope]) = [Instr.addScope] ++ (ra.1 ++ rb.1) ++ [Instr.removeScope] := by simp
+    simp only [hcode] at hseg ⊢
+    rw [Ref.eval]
+    show SimC _ s rs env (if true = true then
+        (match Ref.evalLetSeq n bs rs.frames.length (Ref.newFrame rs env).2 with
+         | .ok _ s => Ref.evalBegin n body rs.frames.length s
+         | .err s => .err s | .brk l s => .brk l s | .cont l s => .cont l s | .timeout => .timeout)
+      else _)
+    rw [if_pos rfl]
+    refine SimC.scoped hseg hrel ?_
+    have hseg1 := hseg.inner
+    have hU := hL bs hbs isFn _ gs (ra, gs1) ha hfn _ _ _ _ _ hrel.pushScope
+      (hseg1.refocus (c' := ra.1) (post' := rb.1 ++ ([.removeScope] ++ post)) (by simp))
+    cases h1 : Ref.evalLetSeq n bs rs.frames.length (Ref.newFrame rs env).2 with
+    | ok u rs2 =>
+      rw [h1] at hU
+      obtain ⟨s2, r2, m2, rel2, ext2, fr2⟩ := hU
+      have ihb := hB body hbody hbl isFn _ gs1 (rb, gs2) hb hfn s2 rs2 _ _ _ rel2
+        (hseg1.moved m2 (c₁ := ra.1) (c₂ := rb.1) (post' := [.removeScope] ++ post) (by simp) rfl)
+      exact SimC.seq r2 m2 ext2 fr2 ihb (by lenarith) (by lenarith)
+    | err rs2 => rw [h1] at hU; exact FailsE.mono hU (by lenarith)
+    | timeout => trivial
+    | brk l rs2 => rw [h1] at hU; exact hU.elim
+    | cont l rs2 => rw [h1] at hU; exact hU.elim
+  | call f args =>
+    cases f with
+    | sym h =>
+      rw [Fc] at he
+      simp only [Bool.and_eq_true, List.contains_iff_mem] at he
+      rw [compile] at hc
+      have hne : (h == c.funcname) = false := by
+        rw [hfn]; have := foBuiltins_ne_empty h he.1; simpa using this
+      simp only [hne, Bool.and_false, Bool.false_eq_true, if_false, g_pure_ok] at hc
+      subst hc
+      cases n with
+      | zero =>
+        rw [Ref.eval, Ref.eval]
+        trivial
+      | succ m => exact simC_call hA h he.1 args he.2 hrel hseg
+    | _ => simp [Fc] at he
+  | _ => simp [Fc] at he
+
+
+/-! ## The induction -/
+
+theorem cclaims_zero : CClaimE 0 ∧ CClaimB 0 ∧ CClaimC 0 ∧ CClaimS 0 ∧ CClaimN 0 ∧ CClaimL 0 ∧ CClaimP 0 ∧ CClaimA 0 := by
+  refine ⟨?_, ?_, ?_, ?_, ?_, ?_, ?_, ?_⟩
+  · intro e _ isFn c gs r _ _ s rs env pre post _ _
+    rw [Ref.eval]; trivial
+  · intro es _ _ isFn c gs r _ _ s rs env pre post _ _
+    rw [Ref.evalBegin]; trivial
+  · intro arms d _ _ isFn c gs r gs0 rd _ _ _ s rs env pre post _ _
+    rw [Ref.evalCond]; trivial
+  · intro isOr es _ isFn c gs r _ _ s rs env pre post _ _
+    rw [Ref.evalAndOr]; trivial
+  · intro es _ _ isFn c ot gs r _ _ s rs env pre post _ _
+    rw [Ref.evalBegin]; trivial
+  · intro bs _ isFn c gs r _ _ s rs env pre post _ _
+    rw [Ref.evalLetSeq]; trivial
+  · intro bs _ isFn c gs r _ _ s rs env pre post _ _
+    rw [Ref.evalList]; trivial
+  · intro args _ i s rs env _
+    rw [Ref.evalArgs]; trivial
+
+theorem cclaims : ∀ n, CClaimE n ∧ CClaimB n ∧ CClaimC n ∧ CClaimS n ∧ CClaimN n ∧ CClaimL n ∧ CClaimP n ∧ CClaimA n
+  | 0 => cclaims_zero
+  | n + 1 => by
+    obtain ⟨hE, hB, hC, hS, hN, hL, hP, hA⟩ := cclaims n
+    exact ⟨cclaimE_succ hE hB hC hS hN hL hP hA, cclaimB_succ hE hB, cclaimC_succ hE hC, cclaimS_succ hE hS,
+      cclaimN_succ hE hN, cclaimL_succ hE hL, cclaimP_succ hE hP, cclaimA_succ hE hA⟩
+
+/-- **Segment lemma for Fc** (Fv with binder names that are not builtin names, plus calls of
+first-order builtins with operands in Fc). From related states (`RelC`), the VM on the first
+instruction of the code of `e` (compiled in a context without an enclosing function name), embedded
+anywhere: a reference value ⇒ the code runs to its end, pushes that value, related states again,
+control stacks and old function objects untouched; a reference error ⇒ a script error with the same
+trace; never `break`/`continue`. The fuel the VM needs is bounded (existentially: operands are
+evaluated in nested runs). -/
+theorem segment_Fc (e : Expr) (he : Fc e = true) (isFn : Nat → Bool) (c : Ctx) (hfn : c.funcname = "") (gs : GS)
+    (code : List Instr) (t : Bool) (gs' : GS) (hc : (compile isFn c e).run gs = .ok ((code, t), gs'))
+    (s : St) (rs : Ref.St) (env : Nat) (pre post : List Instr) (hrel : RelC s rs env) (hseg : Seg s pre code post)
+    (n : Nat) : SimC code s rs env (Ref.eval n e env rs) :=
+  (cclaims n).1 e he isFn c gs ((code, t), gs') hc hfn s rs env pre post hrel hseg
+
+theorem segment_Fc_begin (es : List Expr) (hne : es ≠ []) (he : FcList es = true) (isFn : Nat → Bool) (c : Ctx)
+    (hfn : c.funcname = "") (gs : GS)
+    (code : List Instr) (t : Bool) (gs' : GS) (hc : (compileBegin isFn c es).run gs = .ok ((code, t), gs'))
+    (s : St) (rs : Ref.St) (env : Nat) (pre post : List Instr) (hrel : RelC s rs env) (hseg : Seg s pre code post)
+    (n : Nat) : SimC code s rs env (Ref.evalBegin n es env rs) :=
+  (cclaims n).2.1 es hne he isFn c gs ((code, t), gs') hc hfn s rs env pre post hrel hseg
 
 end ZygoVerif.Sim
